@@ -365,6 +365,52 @@ def bounded_search(pid, seed, tier):
     return out
 
 
+# ------------------------------------------------------------------ thorough tier: contract self-test on the seeded changes
+
+def contract_selftest(pid, units):
+    """For every seeded change of this property (seeded/<id>/patch.diff), apply it to a scratch copy of /repo's sources
+    (never to /repo), re-extract and re-verify the Verus units, and record whether a named obligation fails.  Informational:
+    it measures how much of the detection is carried by contracts (the bounded layer and Kani are not part of this test)."""
+    import glob
+    import tempfile
+    out = []
+    seeds = sorted(glob.glob(os.path.join(ROOT, 'seeded', '*', 'meta.json')))
+    scratch = tempfile.mkdtemp(prefix='verif-selftest-')
+    try:
+        for mp in seeds:
+            meta = jload(mp, {})
+            if meta.get('property') != pid:
+                continue
+            patch = os.path.join(os.path.dirname(mp), 'patch.diff')
+            subprocess.run(['rsync', '-a', '--delete', '--exclude', 'target', os.path.join(REPO, 'crates'), scratch], check=False)
+            ap = subprocess.run(['patch', '-p1', '-s', '-d', scratch, '-i', patch], capture_output=True, text=True)
+            rec = {'seed': meta.get('id'), 'failed_obligations': [], 'undecided_units': []}
+            if ap.returncode != 0:
+                rec['note'] = 'patch does not apply to the current tree'
+                out.append(rec)
+                continue
+            old_repo = ex.REPO
+            ex.REPO = scratch
+            ex._file_cache.clear()
+            try:
+                for u in units:
+                    if UNITS['units'][u]['kind'] != 'verus':
+                        continue
+                    try:
+                        r = verus_unit(u, 'quick')
+                        rec['failed_obligations'] += ['%s/%s' % (u, n) for n in r['failed']]
+                    except (Undecided, ex.AnchorLoss, rs.ScanError) as e:
+                        rec['undecided_units'].append('%s: %s' % (u, str(e).split('\n')[0][:160]))
+            finally:
+                ex.REPO = old_repo
+                ex._file_cache.clear()
+            rec['detected_by_contracts'] = bool(rec['failed_obligations'])
+            out.append(rec)
+    finally:
+        shutil.rmtree(scratch, ignore_errors=True)
+    return out
+
+
 # ------------------------------------------------------------------ main
 
 def sanitize(s):
@@ -576,14 +622,15 @@ def main():
         rc = 2
     if rc == 0 and bounded['status'] not in ('clean', 'not-run'):
         print('NOTE property=%s bounded layer %s (does not affect the verdict of the proof obligations)' % (pid, bounded['status']))
-    write_evidence(pid, a.tier, seed, results, canaries, all_obl, failed, undecided, t_start, pspec, units, known_hits, viol_records, bounded)
+    selftest = contract_selftest(pid, units) if a.tier == 'thorough' and rc == 0 else None
+    write_evidence(pid, a.tier, seed, results, canaries, all_obl, failed, undecided, t_start, pspec, units, known_hits, viol_records, bounded, selftest)
     if rc == 0:
         print('OK property=%s tier=%s obligations=%d discharged=%d units=%s wall=%.1fs' % (
             pid, a.tier, len(all_obl), len(all_obl) - len(failed), ','.join(units), time.time() - t_start))
     sys.exit(rc)
 
 
-def write_evidence(pid, tier, seed, results, canaries, all_obl, failed, undecided, t_start, pspec, units, known_hits=(), viol=(), bounded=None):
+def write_evidence(pid, tier, seed, results, canaries, all_obl, failed, undecided, t_start, pspec, units, known_hits=(), viol=(), bounded=None, selftest=None):
     failed_names = set('%s/%s' % (u, n) for (u, n, _) in failed)
     fns = []
     transforms = set()
@@ -645,6 +692,7 @@ def write_evidence(pid, tier, seed, results, canaries, all_obl, failed, undecide
             'vacuity_canaries': {u: {'expected': len(c['expected']), 'refuted': len(c['refuted']), 'vacuous': c['vacuous']} for u, c in canaries.items()},
             'kani': {u: [{'harness': h['harness'], 'status': h['status'], 'checks': h.get('checks'), 'wall_s': round(h['wall'], 1), 'claim': h.get('text', '')} for h in results[u]['harnesses']] for u in units if results.get(u) and results[u]['kind'] == 'kani'},
             'undecided': undecided,
+            'contract_selftest_on_seeded_changes': selftest,
             'bounded_layer': {'label': 'BOUNDED stand-in, never counted as proved: concrete inputs run through the real code against executable specifications', 'status': (bounded or {}).get('status'), 'bounds': (bounded or {}).get('bounds'), 'failing_inputs': (bounded or {}).get('fails'), 'cmd': (bounded or {}).get('cmd'), 'wall_s': round((bounded or {}).get('wall', 0.0), 1)},
             'known_findings_hit': [k for k, _ in known_hits],
             'violations': [v['obligation'] for v in viol],
